@@ -20,6 +20,7 @@ func init() {
 		tables.TrimOne(p, r)
 		tables.PrefixAll(p, r)
 		tables.DBLinkAgree(p, r)
+		tables.BlankLine(p, r)
 	})
 	register("C16", false, func(p *core.Prog, r *core.Report, tier string) { tables.C16(p, r) })
 	register("C02", true, func(p *core.Prog, r *core.Report, tier string) {
@@ -64,6 +65,7 @@ func init() {
 		effects.PureOps(8, "Rotate", "(FeatureSlice).Insert", "*.Shift", "*.Normalize")(p, r)
 		conserve.C04(p, r)
 		conserve.DelegateComplemented(p, r, "Shift", "Expand", "Normalize")
+		conserve.NormalizeArith(p, r)
 		conserve.PartialCarry(p, r, "Normalize", "Shift", "Expand")
 		conserve.PushComplement(p, r)
 		conserve.ModNormalise(p, r)
@@ -74,6 +76,7 @@ func init() {
 		effects.PureOps(10, "Reverse", "Complement", "Transcribe", "*.Reverse", "*.Complement")(p, r)
 		conserve.C05(p, r)
 		conserve.LocateRC(p, r)
+		conserve.MirrorArith(p, r)
 		conserve.DelegateComplemented(p, r, "Reverse")
 		conserve.PartialCarry(p, r, "Reverse")
 		siblings.Reverse(p, r)
